@@ -12,7 +12,48 @@ def admissibleB (st : AState) (s : Nat) (c : List Nat) : Bool :=
 def sharersOf (st : AState) (o s : Nat) : List Nat :=
   (List.range st.next).filter (fun o' => o' != o && st.store o' == some s)
 
-def handle (_fam : String) (c _impl : Json) : P Json := do
+/-- unit-level tie of the tracker class: `register` / `unregister` / `check_writable` called directly with storage identities
+    chosen by the harness (small numbers, reused at will) and objects that die at chosen points.  Judged against the plain
+    specification — refuse iff at least two LIVE objects are currently registered (and not unregistered since) under the
+    identity — and against the model functions the theorems are about. -/
+def handleTracker (c : Json) : P Json := do
+  let ops ← asArr (← field c "ops")
+  let mut st : AState := AState.init
+  let mut pairs : List (Nat × Nat) := []      -- the specification's state: registered (object, identity) pairs
+  let mut k := 0
+  for op in ops do
+    let e ← strF op "op"
+    match e with
+    | "new" =>
+      st := ({ st with next := st.next + 1 }).setStore st.next (some 0)
+    | "kill" =>
+      let o ← natF op "o"
+      st := st.setStore o none
+    | "reg" =>
+      let o ← natF op "o"; let s ← natF op "s"
+      st := st.register o s
+      if !(pairs.contains (o, s)) then pairs := pairs ++ [(o, s)]
+    | "unreg" =>
+      let o ← natF op "o"; let s ← natF op "s"
+      st := st.unregister o s
+      pairs := pairs.filter (· != (o, s))
+    | "check" =>
+      let s ← natF op "s"
+      let refused ← boolF op "refused"
+      let owners := (pairs.filter (fun p => p.2 == s && st.alive p.1)).map (·.1)
+      let specRefused := owners.length ≥ 2
+      let (st', ok) := st.checkWritable s
+      st := st'
+      if refused != specRefused then
+        return verdict false s!"op {k}: check_writable on identity {s} refused={refused} although the live objects registered under it are {owners}" (toJson k)
+      if ok == refused then
+        return verdict false s!"op {k}: model registry predicts writable={ok} on identity {s} but the tracker refused={refused} (live owners {owners})" (toJson k)
+    | _ => .error s!"unknown tracker op {e}"
+    k := k + 1
+  return verdict true ""
+
+def handle (fam : String) (c _impl : Json) : P Json := do
+  if fam == "tracker" then return ← handleTracker c
   let evs ← asArr (← field c "events")
   let mut st : AState := AState.init
   let mut ids : List (Nat × Nat) := []     -- harness serial ↦ model object number
